@@ -1,6 +1,8 @@
 /* C12 unit-level harness: opens <file> with the real sqfs_istream_open_file and issues the given
  * sqfs_istream_read requests; prints, per request, the returned count and the crc32 of the bytes.
- * The OS answers are scripted by harness/preload.c (VP_READ_SCRIPT).  usage: replay_stream file n1 n2 ... */
+ * An argument pN is a single look: get_buffered_data(want = N) without consuming; printed as [-1000 - size seen, crc of
+ * the first min(size, N) bytes].
+ * The OS answers are scripted by harness/preload.c (VP_READ_SCRIPT).  usage: replay_stream file [pN] n1 n2 ... */
 #include <stdio.h>
 #include <stdlib.h>
 #include <zlib.h>
@@ -12,6 +14,15 @@ int main(int argc, char **argv)
 	if (argc < 2 || sqfs_istream_open_file(&in, argv[1], 0)) { printf("{\"fatal\":\"open\"}\n"); return 0; }
 	printf("{\"results\":[");
 	for (int i = 2; i < argc; ++i) {
+		if (argv[i][0] == 'p') {
+			size_t want = strtoul(argv[i] + 1, NULL, 10), size = 0;
+			const sqfs_u8 *ptr = NULL;
+			int ret = in->get_buffered_data(in, &ptr, &size, want);
+			size_t m = size < want ? size : want;
+			if (ret < 0) printf("%s[%d,0]", i > 2 ? "," : "", ret);
+			else printf("%s[%ld,%lu]", i > 2 ? "," : "", -1000L - (long)size, (ret == 0 && m > 0) ? crc32(0, ptr, m) : 0UL);
+			continue;
+		}
 		size_t n = strtoul(argv[i], NULL, 10);
 		unsigned char *buf = malloc(n ? n : 1);
 		sqfs_s32 r = sqfs_istream_read(in, buf, n);
